@@ -164,10 +164,19 @@ Definition motifs_okb (nt : net) : bool :=
                     let g := motif_graph (find_motif nt id) in
                     peq (auto_expr g i) (exact_expr g i) && peq (auto_expr g j) (exact_expr g j))
           (n_sweep nt).
+(* the cover precondition (motifs pairwise share at most one vertex, label vertex lists complete), seen from
+   every vertex v of every swept motif: a labelled neighbour of v lies in the motif's vertex list exactly when
+   the connecting edge belongs to that motif *)
+Definition cover_ok_atb (nt : net) (j id : nat) : bool :=
+  forallb (fun p => Bool.eqb (memb (fst p) (m_verts (find_motif nt id))) (Nat.eqb (snd p) id)) (nbrs_lab nt j).
+Definition cover_okb (nt : net) : bool :=
+  forallb (fun e => let '(i, j, id) := e in
+                    forallb (fun v => cover_ok_atb nt v id) (g_nodes (motif_graph (find_motif nt id))))
+          (n_sweep nt).
 Definition c17_checkb (nt : net) (T : nat) (pvs : list (Q * Q)) : bool :=
   forallb (query_okb nt T) pvs && mono_okb pvs.
 Definition t_pvs (t : tree) : list (Q * Q) := map (fun x => (t_q (t_nth 0 x), t_q (t_nth 1 x))) (t_list t).
 Definition c17_check (t : tree) : tree :=
   let nt := t_net t in
   of_bool (net_okb nt && c17_checkb nt (t_nat (t_nth 3 t)) (t_pvs (t_nth 4 t))).
-Definition c17_check_motifs (t : tree) : tree := of_bool (motifs_okb (t_net t)).
+Definition c17_check_motifs (t : tree) : tree := of_bool (motifs_okb (t_net t) && cover_okb (t_net t)).
